@@ -85,6 +85,9 @@ def check(ctx):
     ctx.rule("T6-fsm", "every control branch of makeRunner distinguishes running, stopped/readied and other status")
 
     slaves_never_scheduled(ctx)
+    from . import _framing as _fr4
+    ctx.rule("T1-checkEnter", "Frame.checkEnter: every before-enter condition must hold (first failing one refuses)")
+    _fr4.frame_check_enter(ctx, "T1-checkEnter")
     want = ctx.cls("wanting", "Want")
     fiat = ctx.cls("fiating", "Fiat")
     wm = registry_members(repo, want)
